@@ -159,7 +159,7 @@ class Ctx:
                 self.known_printed.add(e['id'])
                 print('KNOWN-FINDING: property=%s %s [%s]' % (self.prop, e['what'], e['id']), flush=True)
             return 'known'
-        key = sha(sig)
+        key = sha({k: v for k, v in sig.items() if not k.startswith('_')})
         if any(k == key for k, _ in self.violations):
             return 'dup'
         d = os.path.join(ROOT, 'replays', self.prop)
